@@ -18,6 +18,7 @@ from vp.gen import layout
 from vp.props import common as C
 from vp.ref import catalog, codec
 from vp.ref import grammar as G
+from vp.ref import variants as V
 
 PROP = "C02"
 LEVEL = "exploration"
@@ -39,7 +40,7 @@ def floors(tier):
     return {"bf=0": 300, "bf=1": 300, "mode=GET": 200, "mode=SET": 100, "mode=POLL": 100,
             "count=0": 20, "count>=100": 5, "nested": 2, "variant": 20, "none-group": 20,
             "neg": 50, "scaled": 100, "after-failed-operation": 500, "via-reader": 1000,
-            "via-reader-after-twin": 300, "byte-probe": 50000}
+            "via-reader-after-twin": 300, "byte-probe": 50000, "ctor-payload-with-keywords": 2000}
 
 
 def eligible(t):
@@ -292,6 +293,26 @@ def check(case) -> core.Out:
                 out.viol.append((key + "shared-value:aliased", "two attributes of one message are the same list object"))
         except Exception as err:  # noqa
             out.viol.append((key + f"shared-value:raises:{type(err).__name__}", repr(err)[:200]))
+    if not out.viol and payload and len(payload) % 3 == 0:
+        # the documented constructor route for a raw payload: other keywords are
+        # ignored when payload= is given - also ones that name attributes or flags
+        distract = {}
+        guard = set(G.count_names(t.defn)) | set(catalog.forced_for(t) or {}) | set(V.discriminator_names())
+        if t.kwrule is not None and len(t.kwrule) > 1 and isinstance(t.kwrule[1], str):
+            guard.add(t.kwrule[1])
+        for n_, sp_ in expected:
+            if n_ in guard:
+                continue  # variant selectors read their discriminating keyword before the payload
+            if sp_[0] == "val" and isinstance(sp_[2], int) and not isinstance(sp_[2], bool) and len(distract) < 4:
+                distract[n_] = sp_[2] ^ 1
+        try:
+            m3 = pyubx2.UBXMessage(clsid[0:1], clsid[1:2], mode, parsebitfield=bf, payload=payload, **distract)
+            out.classes = list(out.classes) + ["ctor-payload-with-keywords"]
+            for kind, base, detail in C.compare_attrs(C.public_attrs(m3), expected):
+                out.viol.append((key + f"ctor-payload:{kind}:{base}",
+                                 f"UBXMessage(payload=..., {', '.join(distract)}=...): {detail}"))
+        except Exception as err:  # noqa
+            out.viol.append((key + f"ctor-payload:raises:{type(err).__name__}", repr(err)[:200]))
     try:
         ident = msg.identity
     except Exception as err:  # noqa
